@@ -1001,3 +1001,110 @@ def bf_n(eng, D):
         return SV(zint(eng.get_attr_raw(D, "_num_binary_variables")), "int")
     arr = FO.keylabels_of(eng, eng.store_of(D))
     return SV(T.CARD(arr), "int")
+
+
+@spec
+def cons_all(eng, o, key, rel):
+    """every constraint recorded under `key` satisfies  value <rel> 0  at the ghost assignment"""
+    from . import enumth as EN
+    lst = (o.attrs.get("_constraints") or {}).get(key)
+    if not isinstance(lst, EN.CList):
+        raise Unsupported("recorded constraints of %r are not abstract lists" % (o,))
+    eng.nfresh += 1
+    eng.quantified = True
+    c = z3.Int("cq!%d" % eng.nfresh)
+    v = EN.CVAL(c)
+    r = {"==": v == 0, "!=": v != 0, "<": v < 0, "<=": v <= 0, ">": v > 0, ">=": v >= 0}[rel]
+    return SV(z3.ForAll([c], z3.Implies(z3.Select(lst.cnt, c) > 0, r)), "bool")
+
+
+# ------------------------------------------------------------------ indexed solutions (C04, vf/qvc/solth.py)
+def _sol(eng, s):
+    from . import solth as SO
+    if not isinstance(s, SO.SolVal):
+        raise Unsupported("indexed solution expected")
+    return s
+
+
+@spec
+def sol_len(eng, s):
+    return SV(_sol(eng, s).n, "int")
+
+
+@spec
+def sol_at(eng, s, i):
+    return SV(z3.Select(_sol(eng, s).arr, zint(i)), "real")
+
+
+@spec
+def sol_all_in(eng, s, a, b):
+    """every value of the solution is a or b"""
+    from . import solth as SO
+    s = _sol(eng, s)
+    j = SO._iq(eng)
+    v = z3.Select(s.arr, j)
+    return SV(z3.ForAll([j], z3.Implies(z3.And(j >= 0, j < s.n), z3.Or(v == zreal(a), v == zreal(b)))), "bool")
+
+
+@spec
+def sol_has(eng, s, a):
+    """some value of the solution is a"""
+    from . import solth as SO
+    s = _sol(eng, s)
+    j = SO._iq(eng)
+    return SV(z3.Exists([j], z3.And(j >= 0, j < s.n, z3.Select(s.arr, j) == zreal(a))), "bool")
+
+
+@spec
+def idx_none(eng, V, s, a):
+    """no visited index of the solution holds the value a"""
+    from . import solth as SO
+    s = _sol(eng, s)
+    if not (isinstance(V, SV) and V.t == "idxset"):
+        raise Unsupported("index set expected")
+    j = SO._iq(eng)
+    return SV(z3.ForAll([j], z3.Implies(z3.Select(V.e, j), z3.Select(s.arr, j) != zreal(a))), "bool")
+
+
+@spec
+def forall_idx(eng, n, f):
+    """forall i in [0, n). f(i)"""
+    from . import solth as SO
+    i = SO._iq(eng)
+    body = eng.call(f, [SV(i, "int")], {})
+    t = eng.tobool(body)
+    t = z3.BoolVal(t) if isinstance(t, bool) else t
+    return SV(z3.ForAll([i], z3.Implies(z3.And(i >= 0, i < zint(n)), t)), "bool")
+
+
+@spec
+def map_at(eng, d, i):
+    """value of an int-keyed dict at i (unspecified when i is not a key)"""
+    ver = eng.store_of(d)
+    return SV(z3.Select(ver.val, zint(i)), "label" if ver.vsort == T.Label else "int")
+
+
+@spec
+def label_at(eng, d, l):
+    """value of a label-keyed dict at l"""
+    ver = eng.store_of(d)
+    return SV(z3.Select(ver.val, eng.as_label(l)), "real" if ver.vsort == T.Real else "int")
+
+
+@spec
+def has_key(eng, d, k):
+    ver = eng.store_of(d)
+    kk = zint(k) if ver.ksort == T.Int else eng.as_label(k)
+    return SV(z3.Select(ver.dom, kk), "bool")
+
+
+@spec
+def only_images(eng, d, rmap, n):
+    """every key of the label-keyed dict d is rmap[i] for some i in [0, n)"""
+    from . import solth as SO
+    dv, rv = eng.store_of(d), eng.store_of(rmap)
+    eng.nfresh += 1
+    l = z3.Const("lq!%d" % eng.nfresh, T.Label)
+    i = SO._iq(eng)
+    return SV(z3.ForAll([l], z3.Implies(z3.Select(dv.dom, l),
+                                        z3.Exists([i], z3.And(i >= 0, i < zint(n), z3.Select(rv.val, i) == l)))), "bool")
